@@ -1088,12 +1088,12 @@ def extract_for(pid, repo):
             out.append("-- %s :: %s\n%s" % (rel, path, committed[i][2]))
     out.append("end Cv.Src.%s\n" % pid)
     text = "".join(out)
-    if "Cv.F64Consts." in text.split("namespace Cv.Src.", 1)[1] or "Cv.Lit.ofBits" in text:
+    if "Cv.F64Consts." in text.split("namespace Cv.Src.", 1)[1] or "Cv.LitBits.ofBits" in text:
         # a translated function mentions an f64 constant / an inexact literal through the translator's DEFAULT spelling (the table
         # gives none): the file needs the fallback classes of Model/F64Consts.lean.  (Never the case for the committed tree.)
         text = text.replace("set_option linter.unusedVariables false\n",
                             "import Compute.Model.F64Consts\nset_option linter.unusedVariables false\n", 1)
-        text = re.sub(r"(\nvariable [^\n]*(?:\n  [^\n]*)*)\n\n", lambda m_: m_.group(1) + " [Cv.F64Consts α] [Cv.Lit α]\n\n", text, 1)
+        text = re.sub(r"(\nvariable [^\n]*(?:\n  [^\n]*)*)\n\n", lambda m_: m_.group(1) + " [Cv.F64Consts α] [Cv.LitBits α]\n\n", text, 1)
     files = {"Compute/Generated/Src%s.lean" % pid: text}
     if notes:
         try:
